@@ -388,6 +388,14 @@ def b_copy_(P, s, a, b, c, name):
         else:
             srcop = ("p", j)
     else:
+        if a % 3 == 2 and c % 4 == 1:
+            # a packed low-bit destination: the values of a plain / quantized source of the same shape are quantized into it
+            i = P.pick(s[0], lambda v: isinstance(v, QBitsTensor) and v.numel() > 0)
+            if i is not None:
+                d = P.vals[i]
+                x = gen.clamp_finite(_values(list(d.shape), d.dtype, 4800 + b, 1.0).to(torch.float64) * float(deq(d).abs().max().to(torch.float64) + 1e-3), d.dtype)
+                src_ = x if b % 2 == 0 else quantize_weight(x, d.qtype, d.axis, d._group_size)
+                return dict(f=lambda d, s_: d.copy_(s_), ops=[("p", i), ("x", 0)], extra=[("fresh" if isq(src_) else "plain", src_)], klass="requant", inplace=0)
         i = P.pick(s[0], lambda v: isinstance(v, QBytesTensor) and v.ndim >= 1)
         if i is None:
             return None
